@@ -17,7 +17,7 @@ import pandapower as pp
 import pandapower.shortcircuit as sc
 from pandapower.estimation import estimate
 from pandapower.contingency import run_contingency
-from vf import coqrun as cq, c08_snap as S, c08_nets as N, c08_inject as J
+from vf import coqrun as cq, c08_snap as S, c08_nets as N, c08_inject as J, c08_xobs as X
 
 RULE = ("nets: 3-5 bus 110 kV ring + 20 kV bus, 0-2 dclines (in/out of service), 0-2 user gens with gapped ids, tap table on/off, "
         "measurements; b2b_vsc net with/without a user vsc named like an auxiliary vsc.  Faults: every pipeline-stage function "
@@ -170,7 +170,8 @@ class StageObserver:
               ("pandapower.shortcircuit.calc_sc", "_extract_results"),
               ("pandapower.powerflow", "_clean_up"), ("pandapower.optimal_powerflow", "_clean_up"),
               ("pandapower.shortcircuit.calc_sc", "_clean_up"), ("pandapower.shortcircuit.impedance", "_clean_up"),
-              ("pandapower.pf.runpp_3ph", "_clean_up")]
+              ("pandapower.pf.runpp_3ph", "_clean_up"), ("pandapower.pf.runpp_3ph", "_pd2ppc_recycle"),
+              ("pandapower.pf.runpp_3ph", "_extract_results_3ph")]
 
     def __init__(self, net, fault=None):
         self.net, self.fault = net, fault     # fault = (name, occurrence, 'entry'|'exit')
@@ -223,6 +224,31 @@ def model_k(net, calc, fault):
     D, B = len(net.dcline), len(net.b2b_vsc)
     base = (1 + 4 * D) if D > 0 else 0
     tail = base + ((1 + 4 * B) if B > 0 else 0)
+    if calc == "runpp_3ph":
+        # pl_pf3ph: ABuild (three _pd2ppc_recycle calls), ASolve, ACleanup; nothing is added
+        if name == "_pd2ppc_recycle":
+            return (0 if (n == 0 and when == "entry") else 1), True
+        if name == "_extract_results_3ph":
+            return 2, True
+        return None, False
+    if calc in ("sc3ph", "sc1ph"):
+        # pl_sc: add_aux, ABuild, ASolve, ACleanup; pl_sc_1ph: add_aux twice (calc_sc.py:227 and inside _init_ppc)
+        passes = 2 if calc == "sc1ph" else 1
+        if name == "_add_dcline_gens" and n < passes:
+            return n * tail + (0 if when == "entry" else base), True
+        if name == "create_gen" and D > 0 and n < passes * 2 * D:
+            ps, r = divmod(n, 2 * D)
+            return ps * tail + (2 + 2 * r if when == "entry" else 3 + 2 * r), True
+        if name == "_add_b2b_vsc" and n < passes:
+            return n * tail + (base if when == "entry" else tail), True
+        if name == "create_vsc" and B > 0 and n < passes * 2 * B:
+            ps, r = divmod(n, 2 * B)
+            return ps * tail + base + (2 + 2 * r if when == "entry" else 3 + 2 * r), True
+        if name == "_pd2ppc" and n == 0:
+            return passes * tail + (0 if when == "entry" else 1), True
+        if name == "_extract_results":
+            return passes * tail + 2, True
+        return None, False
     ac_init = "verify_results" if calc in ("rundcpp", "rundcopp") else "init_results"
     if name == "_add_dcline_gens":
         return (0 if when == "entry" else base), True
@@ -338,6 +364,12 @@ def correspondence(ctx, rng, nets, b2b):
                 pick = evs if (ctx.tier != "quick" or base is nets[0]) else rng.sample(evs, min(len(evs), 6))
                 for e in pick:
                     add(base, calc, e)
+            else:
+                # short circuit 3ph / 1ph (double add) and three-phase power flow: the model crash index is tied to the same
+                # stage events as for power flow and OPF
+                evs = [e for e in ob.events if model_k(base, calc, e)[1]]
+                for e in (evs if ctx.tier != "quick" else rng.sample(evs, min(len(evs), 4 if base is not nets[0] else 8))):
+                    add(base, calc, e)
         add(base, "runpp", None, NATURAL["runpp_not_converged"])
         add(base, "runopp", None, NATURAL["runopp_infeasible"], PREPARE["runopp_infeasible"])
         add(base, "sc3ph", None, NATURAL["sc3ph_inverse_y"])
@@ -354,6 +386,199 @@ def correspondence(ctx, rng, nets, b2b):
             which = [k for k in ("done", "final", "states") if mo[k] != obs[k]]
             ctx.disagreement("stage machine differs in %s: impl %s / model %s" % (
                 which, json.dumps(obs[which[0]])[:300], json.dumps(mo[which[0]])[:300]), case)
+
+
+# ------------------------------------------------------------------ correspondence: estimate and run_contingency
+K_CONT = "C08-contingency-outage-before-try"
+
+
+def xnet_literal(net, tables=("line",)):
+    z, o = X.zcol(net, "z_ohm"), X.zcol(net, "z_ohm_ori")
+
+    def ol(v):
+        return "None" if v is None else "(Some %s)" % cq.lst([cq.z(x) for x in v])
+    ins = cq.lst([cq.lst([cq.z(int(i)) for i in net[t].index[net[t].in_service.values.astype(bool)]]) for t in tables])
+    rows = cq.lst([cq.lst([cq.z(int(i)) for i in net[t].index]) for t in tables])
+    return "(mk_xnet %s %s %s %s %s)" % (net_literal(net), ol(z), ol(o), ins, rows)
+
+
+def _exc_class(e):
+    return "done" if e is None else ("exception" if isinstance(e, Exception) else "base")
+
+
+def estimate_correspondence(ctx, rng, nets):
+    """estimate(fuse_buses_with_bb_switch=None) on nets with closed bus-bus switches: the impedance writes observed in a
+    run without fault are the `rounds` input of C08.Model.run_estimate; for a fault at a stage event (Exception and
+    BaseException) the state at the fault (z_ohm, z_ohm_ori), the final state and the kind of outcome must agree"""
+    terms, expect = [], []
+    done = 0
+    for base in nets:
+        if int((base.switch.et == "b").sum()) == 0 or (ctx.tier == "quick" and done >= 2):
+            continue
+        done += 1
+        net = copy.deepcopy(base)
+        ob0 = X.XObserver(net, X.EST_POINTS, X.est_state)
+        err = None
+        with ob0:
+            try:
+                res = _quiet(CALCS["estimate_bb"], net)
+            except Exception as e:
+                err = e
+        if err is not None:
+            ctx.count("corr_estimate_bb_unfaulted_raises_" + type(err).__name__)
+            continue
+        success = bool(res["success"]) if isinstance(res, dict) else bool(res)
+        rounds, ncalls = X.est_rounds(ob0)
+        ctx.count("corr_estimate_bb_rounds_%d" % len(rounds))
+        rlit = cq.lst(["(%s, %s)" % (cq.lst([cq.b(x) for x in sel]),
+                                     "None" if undo is None else "(Some %s)" % cq.lst([cq.b(x) for x in undo])) for sel, undo in rounds])
+        lit = xnet_literal(base)
+        evs = [e for e in ob0.events if X.est_k(base, rounds, e) is not None]
+        faults = [None] + (evs if ctx.tier != "quick" else rng.sample(evs, min(len(evs), 5)))
+        for fault in faults:
+            for exc in ((J.InjectedFault,) if fault is None else (J.InjectedFault, J.InjectedInterrupt)):
+                if fault is not None and exc is J.InjectedInterrupt and rng.random() < 0.5 and ctx.tier == "quick":
+                    continue
+                net = copy.deepcopy(base)
+                s0 = S.snapshot(net)
+                ob = X.XObserver(net, X.EST_POINTS, X.est_state, fault, exc)
+                raised = None
+                with ob:
+                    try:
+                        _quiet(CALCS["estimate_bb"], net)
+                    except BaseException as e:
+                        if not isinstance(e, (Exception, J.InjectedInterrupt)):
+                            raise
+                        raised = e
+                case = {"calc": "estimate_bb", "fault": list(fault) if fault else None, "exc": exc.__name__, "net": pp.to_json(base)}
+                judge(ctx, [], s0, net, case, [], type(raised).__name__ if raised is not None else None)
+                k = None if fault is None else X.est_k(base, rounds, fault)
+                args = "%s true false %s true %s %s %s" % (cq.b(exc is J.InjectedFault), rlit, cq.b(success),
+                                                         "None" if k is None else "(Some %s)" % cq.nat(k), lit)
+                terms.append("run_est " + args)
+                expect.append(("est_final", [digest(net)] + X.est_state(net), _exc_class(raised), case))
+                if fault is not None and ob.fired:
+                    terms.append("run_est_at " + args)
+                    expect.append(("est_at", ob.at_fault, _exc_class(raised), case))
+                ctx.case({"calc": "estimate_bb", "fault": list(fault) if fault else None, "exc": exc.__name__, "rounds": len(rounds)},
+                         nontrivial=fault is not None and len(rounds) > 0)
+                ctx.count("corr_estimate_bb_%s" % ("fault" if fault else "ok"))
+    return terms, expect
+
+
+def contingency_correspondence(ctx, rng, nets):
+    """run_contingency with an evaluation function that reports its calls (and does not converge for chosen outages):
+    faults at the entry/exit of the evaluation and of the result bookkeeping, Exception and BaseException, raise_errors on
+    and off, elements already out of service, an absent index (the line-level fault between outage assignment and try
+    statement of the layout before the repair is still searched for: it finds no such line any more); final in_service cells, tables and kind of outcome versus C08.Model.run_contingency"""
+    from pandapower.contingency import run_contingency
+    terms, expect = [], []
+    for base0 in nets[:ctx.n(2, 6)]:
+        for variant in range(ctx.n(2, 4)):
+            base = copy.deepcopy(base0)
+            lines = [int(i) for i in base.line.index]
+            listed = lines[:3]
+            if variant % 2 == 1 and len(listed) > 1:
+                base.line.at[listed[0], "in_service"] = False       # already out of service: skipped, stays out of service
+            if variant == 3:
+                listed = listed[:2] + [max(lines) + 5]                 # absent index: KeyError in front of any assignment
+            failing = {listed[1]} if variant >= 1 and len(listed) > 1 else set()
+            raise_errors = variant == 2
+            present = [i in lines for i in listed]
+            executed = [p and bool(base.line.at[i, "in_service"]) if p else False for i, p in zip(listed, present)]
+            cases = [(ex, i not in failing) for i, ex in zip(listed, executed)]
+            if not all(present):
+                cut = present.index(False)          # the loop ends at the absent index
+            clit = cq.lst(["(0%%nat, %s, %s)" % (cq.z(i), cq.b(i not in failing)) for i in listed])
+            keys = cq.lst(["(0%%nat, %s)" % cq.z(i) for i in lines])
+            lit = xnet_literal(base)
+
+            def runner(net, fault, exc, tryline=None):
+                state = {"n": 0}
+                ob = X.XObserver(net, X.CONT_POINTS, lambda n: None, fault, exc)
+
+                def evaluation(n, **kw):
+                    j = state["n"]
+                    state["n"] += 1
+                    ob.event("eval", j, "entry")
+                    out = [i for i in listed if i in n.line.index and not n.line.at[i, "in_service"] and base.line.at[i, "in_service"]]
+                    if out and out[0] in failing:
+                        pp.runpp(n, **dict(kw, max_iteration=1, init="flat"))
+                    else:
+                        pp.runpp(n, **kw)
+                    ob.event("eval", j, "exit")
+                raised = None
+                with ob:
+                    ctxm = tryline if tryline is not None else contextlib.nullcontext()
+                    with ctxm:
+                        try:
+                            _quiet(run_contingency, net, {"line": {"index": listed}}, numba=False, raise_errors=raise_errors,
+                                   contingency_evaluation_function=evaluation)
+                        except BaseException as e:
+                            if not isinstance(e, (Exception, J.InjectedInterrupt)):
+                                raise
+                            raised = e
+                return ob, raised
+            net = copy.deepcopy(base)
+            ob0, raised0 = runner(net, None, J.InjectedFault)
+            evs = [e for e in ob0.events if X.cont_k(base, cases, e)[0] is not None]
+            nexec = sum(1 for ex, _ in (cases if all(present) else cases[:cut]) if ex)
+            faults = [None] + (evs if ctx.tier != "quick" else rng.sample(evs, min(len(evs), 5))) + \
+                     [("try_line", j, "line") for j in range(nexec)][:ctx.n(1, 3)]
+            for fault in faults:
+                for exc in ((J.InjectedFault,) if fault is None else (J.InjectedFault, J.InjectedInterrupt)):
+                    if fault is not None and ctx.tier == "quick" and rng.random() < 0.4:
+                        continue
+                    net = copy.deepcopy(base)
+                    s0 = S.snapshot(net)
+                    tl = X.TryLineFault(fault[1], exc) if fault is not None and fault[0] == "try_line" else None
+                    ob, raised = runner(net, None if tl is not None else fault, exc, tl)
+                    fired = tl.fired if tl is not None else (fault is None or ob.fired)
+                    if not fired:
+                        ctx.count("corr_contingency_fault_not_reached")
+                        continue
+                    k, window = (None, False) if fault is None else X.cont_k(base, cases, fault)
+                    case = {"calc": "contingency", "fault": list(fault) if fault else None, "exc": exc.__name__, "listed": listed,
+                            "failing": sorted(failing), "raise_errors": raise_errors, "net": pp.to_json(base)}
+                    # oracle; the recorded finding is identified by the fault position alone (the try line behind the outage assignment)
+                    d = [x for x in S.diff(s0, S.snapshot(net), allow_new_columns=False) if x[1] not in ("dtype_changed", "column_added")]
+                    if d:
+                        is_window = tl is not None and all(t == "line" and kd == "value_changed" and det.startswith("in_service[") for t, kd, det in d)
+                        ctx.violation(K_CONT if is_window else "spec", "element tables changed by run_contingency (%s): %s" % (
+                            type(raised).__name__ if raised is not None else "returned", d[:3]), case)
+                    terms.append("run_cont %s %s %s 0%%nat %s true %s %s %s" % (
+                        cq.b(exc is J.InjectedFault), cq.b(window), cq.b(raise_errors), clit, keys,
+                        "None" if k is None else "(Some %s)" % cq.nat(k), lit))
+                    expect.append(("cont", [digest(net)] + X.est_state(net) + [[bool(v) for v in net.line.in_service.values]],
+                                   _exc_class(raised), case))
+                    ctx.case({k2: v for k2, v in case.items() if k2 != "net"}, nontrivial=fault is not None)
+                    ctx.count("corr_contingency_%s" % ("window" if tl is not None else ("fault" if fault else "ok")))
+    return terms, expect
+
+
+def x_correspondence(ctx, rng, nets):
+    t1, e1 = estimate_correspondence(ctx, rng, nets)
+    t2, e2 = contingency_correspondence(ctx, rng, nets)
+    terms, expect = t1 + t2, e1 + e2
+    if not terms:
+        return
+    model = ctx.coq_eval("c08x", "C08.Model", terms, prelude="Open Scope Z_scope.", shard=80, timeout=900)
+    for (kind, obs_state, obs_out, case), m in zip(expect, model):
+        ctx.corr_checked += 1
+        mstate, mout = m
+        mnet, mz, mo, mserv = mstate
+        g, t, v, tv, r, vk = mnet
+        mdig = [g, t, [[i, (list(nm) if isinstance(nm, list) else nm)] for i, nm in v], tv, r, vk]
+        if kind == "est_at":
+            got, want = [mz, mo], obs_state
+        elif kind == "est_final":
+            got, want = _norm([mdig])[0] + [mz, mo], _norm([obs_state[0]])[0] + obs_state[1:]
+        else:
+            got, want = _norm([mdig])[0] + [mz, mo, mserv], _norm([obs_state[0]])[0] + obs_state[1:]
+        if json.dumps(got) != json.dumps(want):
+            ctx.disagreement("%s: state differs: impl %s / model %s" % (kind, json.dumps(want)[:300], json.dumps(got)[:300]), case)
+        elif kind != "est_at" and mout != obs_out:
+            ctx.disagreement("%s: outcome differs: impl %s / model %s" % (kind, obs_out, mout), case)
 
 
 def function_level(ctx, rng, base, calc, n_points, exc=J.InjectedFault):
@@ -564,6 +789,7 @@ def run(ctx):
     # b2b_vsc alone, and together with dclines: both kinds of auxiliary elements in one calculation
     b2b = [N.b2b_net(), N.b2b_net(n_dcline=1)]
     correspondence(ctx, rng, nets, b2b)
+    x_correspondence(ctx, rng, nets)
     natural_failures(ctx, nets)
     fail_then_edit_then_run(ctx, rng, nets[:2])
     for calc in CALCS:
@@ -613,7 +839,21 @@ def replay(ctx, rec):
                 _quiet(CALCS[calc], net)
             except Exception:
                 pass
-    elif calc in CALCS:
+    elif calc == "contingency" and case.get("fault") and case["fault"][0] == "try_line":
+        exc = J.InjectedInterrupt if case.get("exc") == "InjectedInterrupt" else J.InjectedFault
+        with X.TryLineFault(case["fault"][1], exc):
+            try:
+                _quiet(run_contingency, net, {"line": {"index": case["listed"]}}, numba=False, raise_errors=case.get("raise_errors", False))
+            except BaseException as e:
+                if not isinstance(e, (Exception, J.InjectedInterrupt)):
+                    raise
+        d = [x for x in S.diff(s0, S.snapshot(net), allow_new_columns=False) if x[1] not in ("dtype_changed", "column_added")]
+        if d:
+            ctx.violation(K_CONT if all(t == "line" and kd == "value_changed" and det.startswith("in_service[") for t, kd, det in d)
+                          else "spec", "element tables changed by run_contingency: %s" % d[:3], case)
+        ctx.case({"replay": calc}, nontrivial=True)
+        return
+    elif calc in CALCS and "exc" not in case:
         obs, term, c2, ob = observe(ctx, base, calc, tuple(case["fault"]) if case.get("fault") else None)
         return
     judge(ctx, guard, s0, net, case, [])
